@@ -27,6 +27,8 @@ import clematis.engine.orchestrator.core as core  # noqa: E402
 import importlib  # noqa: E402
 
 rmod = importlib.import_module("clematis.engine.stages.t3.reflect")
+tpolicy = importlib.import_module("clematis.engine.stages.t3.policy")
+import clematis.engine.orchestrator as orch  # noqa: E402
 from clematis.adapters.llm import FixtureLLMAdapter, LLMAdapterError, _prompt_hash  # noqa: E402
 
 PROPERTY = "C19"
@@ -82,6 +84,13 @@ def generate(seed: int, tier: str) -> Dict[str, Any]:
                     "fault": ro.weighted([(None, 6), ("reflect", 1), ("index_add", 1), ("index_missing", 1), ("telemetry", 1), ("fixture_missing", 2), ("fixture_gone", 1), ("fixture_torn", 1)]),
                     "exc": ro.choice(sorted(EXC_TYPES)), "completion": ro.choice(COMPLETIONS), "prior_read": ro.chance(0.5),
                     "overproduce": ro.choice([0, 0, 0, 2, 3, 7])})
+    if ro.chance(0.12):
+        # the plan comes from the LLM planner through the policy facade (select_policy / run_policy): whether THIS turn's plan asks
+        # for reflection is what the planner answered this turn - also when the answer is a fallback (adapter error, invalid
+        # output) that says nothing about reflection. Nobody sets the request on the state by hand in these programs.
+        for o in ops:
+            o["planner_says"] = ro.choice(["reflect", "reflect", "no", "fallback", "fallback"])
+            o["plan_flag"] = o["planner_says"] == "reflect"
     if ro.chance(0.12):
         # a driver that hands its clock over instead of a number
         for o in ops:
@@ -213,11 +222,34 @@ def _run(program: Dict[str, Any], clock: SimClock, stats: Optional[Dict[str, int
 
             rmod.reflect = reflect_wrapper
             core.log_t3_reflection = log_wrapper
+            cur_planner: Dict[str, Any] = {"says": None}
+            saved_delib = (getattr(orch, "t3_deliberate", None), getattr(core, "t3_deliberate", None), tpolicy.plan_with_llm)
+
+            def scripted_plan_with_llm(ctx, state, cfg):
+                says = cur_planner["says"]
+                if says == "fallback":
+                    return {"plan": [], "rationale": "fallback: invalid llm output"}
+                return {"plan": ["say something"], "rationale": "scripted", "reflection": says == "reflect"}
+
+            def facade_deliberate(ctx, state, bundle):
+                # what stages/t3/core.py:t3_pipeline does with the bundle: plan through the policy layer; the request for
+                # reflection travels on the state, the Plan handed on requests nothing by itself
+                handle = {"name": "llm", "meta": {}}
+                tpolicy.run_policy(handle, bundle, bundle.get("cfg", {}) if isinstance(bundle, dict) else {}, ctx, state=state)
+                from clematis.engine.types import Plan
+                return Plan(version="t3-plan-v1", reflection=False, ops=[], request_retrieve=None)
+
+            tpolicy.plan_with_llm = scripted_plan_with_llm
             try:
                 for oi, op in enumerate(program["ops"]):
                     st = run.state
                     run.step({"op": "set_cfg", "path": ["t3", "allow_reflection"], "value": bool(op["allow"])})
-                    st["_planner_reflection_flag"] = bool(op["plan_flag"])
+                    if op.get("planner_says"):
+                        cur_planner["says"] = op["planner_says"]
+                        orch.t3_deliberate = facade_deliberate
+                        core.t3_deliberate = facade_deliberate
+                    else:
+                        st["_planner_reflection_flag"] = bool(op["plan_flag"])
                     cfg_now = run.cfg
                     pre = copy.deepcopy(st) if do_twin else None
                     cur.clear()
@@ -321,6 +353,15 @@ def _run(program: Dict[str, Any], clock: SimClock, stats: Optional[Dict[str, int
                 rmod.FixtureLLMAdapter = saved_fixture
                 rmod.reflect = real_reflect
                 core.log_t3_reflection = real_log
+                tpolicy.plan_with_llm = saved_delib[2]
+                for mod, val in ((orch, saved_delib[0]), (core, saved_delib[1])):
+                    if val is None:
+                        try:
+                            delattr(mod, "t3_deliberate")
+                        except AttributeError:
+                            pass
+                    else:
+                        mod.t3_deliberate = val
     return {"viol": viol, "entries": entries_all}
 
 
